@@ -38,13 +38,15 @@ package datasemaphore
 //@
 //@ func (*DataSemaphore).Release
 //@   requires s != nil
-//@   modifies s.processing, warnings
+//@   modifies s.processing, warnings, gBroadcastN, gBroadcastRecv
+//@   ensures  [wakeall] gBroadcastN == old(gBroadcastN) + 1 && gBroadcastRecv == s.cond
 //@   ensures  [over] old(s.processing.Num < weight.Num || s.processing.Size < weight.Size) ==> s.processing.Num == 0 && s.processing.Size == 0 && (s.warning != nil ==> warnings == old(warnings) + 1)
 //@   ensures  [normal] !old(s.processing.Num < weight.Num || s.processing.Size < weight.Size) ==> s.processing.Num == old(s.processing.Num) - weight.Num && s.processing.Size == old(s.processing.Size) - weight.Size && warnings == old(warnings)
 //@
 //@ func (*DataSemaphore).Terminate
 //@   requires s != nil
-//@   modifies s.maxProcessing
+//@   modifies s.maxProcessing, gBroadcastN, gBroadcastRecv
+//@   ensures  [wakeall] gBroadcastN == old(gBroadcastN) + 1 && gBroadcastRecv == s.cond
 //@   ensures  s.maxProcessing.Num == 0 && s.maxProcessing.Size == 0
 //@
 //@ func (*DataSemaphore).Processing
